@@ -416,7 +416,7 @@ bk!(c20_nd_reduce_1x2, 6, {
     let (bi, b) = latarr::<2>(-4, 4);
     reductions::<Array2<f64>, 1, 2, 2, 0>(nd(1, 2, &a), nd(1, 2, &b), &ai, &bi);
 });
-// @vp name=c20_nd_elementwise_1x2 prop=C20 tier=quick mem=30 t=480 features=backends fns=ndarray::add,sub,mul,negative,abs,mul_scalar,approximate_eq size=1x2 dom=lattice(-4..4),f64
+// @vp name=c20_nd_elementwise_1x2 prop=C20 tier=thorough mem=40 t=3600 features=backends fns=ndarray::add,sub,mul,negative,abs,mul_scalar,approximate_eq size=1x2 dom=lattice(-4..4),f64
 bk!(c20_nd_elementwise_1x2, 18, {
     let (ai, a) = latarr::<2>(-4, 4);
     let (bi, b) = latarr::<2>(-4, 4);
